@@ -25,6 +25,7 @@ import vlib
 import c08_cost as C
 import c08_gen as G
 import c08_rows as R
+import c08_tie as T
 
 FINISH = dict(level="proof",
               rule="synthetic: random machine models (1-8 ports, load/store tables with 0-6 rows per table typed by dst/src or untyped, "
@@ -419,6 +420,7 @@ def run(ctx):
     run_shards(ctx, syn, "synthetic")
     re_ = real(ctx)
     run_shards(ctx, re_, "real", shard_size=60)
+    T.run(ctx, [("corpus", co), ("synthetic", syn), ("real", re_)])      # translator tie (tools/gen_c08.py, PropsGen/C08gen.v)
 
 
 def replay(ctx, obj):
@@ -426,3 +428,4 @@ def replay(ctx, obj):
     for c, _ in cs:
         ctx.log("replay: %s `%s` -> %s" % (c["isa"], c["text"], json.dumps(c["exp"])[:600]))
     run_shards(ctx, cs, "replay")
+    T.run(ctx, [("replay", cs)])
